@@ -527,15 +527,18 @@ class Pipelines(Stream):
         import musiclang.transform.library as lib
         def f():
             sc = mk_mscore(case["ms"], ids=False)
-            steps = [(f"s{i}", NT(), mk_mask(m)) for i, m in enumerate(case["masks"])]
+            # steps with and without a mask: a (name, transformer) step maps every element of its level
+            steps = [(f"s{i}", NT(), mk_mask(m)) if (i + len(case["masks"])) % 3 else (f"s{i}", NT()) for i, m in enumerate(case["masks"])]
             tp = TransformPipeline(steps)(sc)
             manual = sc
-            for nm, tr, on in steps:
-                manual = tr(manual, on=on).add_tag_children(f"step_{nm}")
+            for st in steps:
+                nm, tr = st[0], st[1]
+                manual = (tr(manual, on=st[2]) if len(st) == 3 else tr(manual)).add_tag_children(f"step_{nm}")
             cp = ConcatPipeline(steps)(sc)
             manual_c = sc
-            for nm, tr, on in steps:
-                manual_c = manual_c + tr(manual_c, on=on).add_tag_children(f"step_{nm}")
+            for st in steps:
+                nm, tr = st[0], st[1]
+                manual_c = manual_c + (tr(manual_c, on=st[2]) if len(st) == 3 else tr(manual_c)).add_tag_children(f"step_{nm}")
             out = {"tp": str(tp) == str(manual) and tp == manual, "cp": str(cp) == str(manual_c) and cp == manual_c}
             # library transform keeps the rhythm
             name = case["lib"]
